@@ -85,7 +85,7 @@ TransposeOp(src, dst) ==
   /\ Bound /\ live[src] /\ NDim(reg[src]) = 2
   /\ Put5(dst, Transpose(reg[src], <<2, 1>>), FALSE, grp[src], warm[src]) /\ Record("transpose", Args(src, dst, "", <<>>))
 ReindexOp(src, dst, new) ==
-  /\ Bound /\ live[src] /\ HasDim(reg[src], "x") /\ Len(reg[src].labs[XPos(reg[src])]) > 0
+  /\ Bound /\ live[src] /\ HasDim(reg[src], "x")
   /\ LET r == Reindex(reg[src], XPos(reg[src]), new, "i", NaN, "f", FALSE, "none")
      IN Put5(dst, r.val, FALSE, grp[src], warm[src]) /\ Record("reindex", Args(src, dst, "", new))
 SortOp(src, dst) ==
@@ -114,7 +114,6 @@ ViaDataset(src, dst) == /\ Bound /\ live[src] /\ Put5(dst, reg[src], FALSE, grp[
 NoEmptyAxis(a) == \A i \in 1..NDim(a) : Len(a.labs[i]) > 0
 AlignSorted(r1, r2, join) ==
   /\ Bound /\ live[r1] /\ live[r2] /\ r1 # r2
-  /\ NoEmptyAxis(reg[r1]) /\ NoEmptyAxis(reg[r2])       \* outer alignment from an empty axis is known finding K01 (a C06 matter)
   /\ LET al == Align(<<reg[r1], reg[r2]>>, join, TRUE, <<>>)
      IN /\ reg' = [reg EXCEPT ![r1] = al.arrs[1], ![r2] = al.arrs[2]] /\ UNCHANGED live
         /\ own' = [own EXCEPT ![r1] = FALSE, ![r2] = FALSE] /\ warm' = [warm EXCEPT ![r1] = FALSE, ![r2] = FALSE]
